@@ -2,8 +2,6 @@ package props
 
 import (
 	"fmt"
-	"os"
-	"path/filepath"
 	"time"
 
 	astisub "github.com/asticode/go-astisub"
@@ -229,10 +227,7 @@ func c09CLI(c *fw.Ctx) fw.Outcome {
 	if r.Bool() {
 		fw.Shuffle(r, cs) // the cues of a file need not be ordered by start: sync keeps the file's order
 	}
-	in := filepath.Join(c.TmpDir(), "in.srt")
-	out := filepath.Join(c.TmpDir(), "out.srt")
-	os.WriteFile(in, []byte(simpleSRT(cs)), 0o644)
-	out = outPath(r, in, out)
+	in, out, unit, formats := cliFiles(c, r, cs)
 	exp := c09Spec(cs, d)
 	msg, err := cli("sync", "-i", in, "-s", time.Duration(d).String(), "-o", out)
 	key := hashCues(cs, uint64(d), 0xc11)
@@ -256,9 +251,9 @@ func c09CLI(c *fw.Ctx) fw.Outcome {
 	}
 	for k, x := range exp {
 		it := got.Items[k]
-		x.s, x.e = x.s/1e6*1e6, x.e/1e6*1e6 // SubRip holds milliseconds (results are never negative)
+		x.s, x.e = x.s/unit*unit, x.e/unit*unit // the output format holds milliseconds or centiseconds (results are never negative)
 		if int64(it.StartAt) != x.s || int64(it.EndAt) != x.e || itemText(it) != cs[x.orig].T {
-			return fw.Bad(key, nil, "CLI sync -s %v on %s: cue %d is [%d,%d) %q, specification says [%d,%d) %q", time.Duration(d), fmtCues(cs), k, it.StartAt, it.EndAt, itemText(it), x.s, x.e, cs[x.orig].T)
+			return fw.Bad(key, nil, "CLI sync -s %v (%s) on %s: cue %d is [%d,%d) %q, specification says [%d,%d) %q", time.Duration(d), formats, fmtCues(cs), k, it.StartAt, it.EndAt, itemText(it), x.s, x.e, cs[x.orig].T)
 		}
 	}
 	c.Count("cli_sync_runs", 1)
